@@ -12,11 +12,16 @@ import (
 	"encoding/json"
 	"fmt"
 	"math"
+	"net/http"
 	"net/http/httptest"
 	"os"
 	"reflect"
 	"sort"
 	"strings"
+	"sync"
+	"time"
+
+	"github.com/gorilla/websocket"
 
 	apifu "github.com/ccbrown/api-fu"
 	"github.com/ccbrown/api-fu/graphql"
@@ -1267,12 +1272,64 @@ var connFields = map[string]map[string]connInfo{
 
 type apiUnderTest struct {
 	api  *apifu.API
-	cost *int
-	ran  *bool
+	mu   sync.Mutex
+	cost int
+	ran  bool
+	srv  *httptest.Server // websocket endpoint (ServeGraphQLWS)
+}
+
+func (a *apiUnderTest) reset() {
+	a.mu.Lock()
+	a.ran, a.cost = false, unsetMark
+	a.mu.Unlock()
+}
+
+func (a *apiUnderTest) seen() (bool, int) {
+	a.mu.Lock()
+	defer a.mu.Unlock()
+	return a.ran, a.cost
+}
+
+// one request over the graphql-ws protocol: connection_init, start, read until complete
+func (a *apiUnderTest) overWS(query string, vars map[string]interface{}, opName string) (data interface{}, nerrs int) {
+	conn, _, err := (&websocket.Dialer{Subprotocols: []string{"graphql-ws"}, HandshakeTimeout: 5 * time.Second}).Dial("ws"+strings.TrimPrefix(a.srv.URL, "http"), nil)
+	if err != nil {
+		panic(err)
+	}
+	defer conn.Close()
+	conn.SetReadDeadline(time.Now().Add(10 * time.Second))
+	if err := conn.WriteJSON(map[string]interface{}{"type": "connection_init", "payload": map[string]interface{}{}}); err != nil {
+		panic(err)
+	}
+	if err := conn.WriteJSON(map[string]interface{}{"id": "1", "type": "start",
+		"payload": map[string]interface{}{"query": query, "variables": vars, "operationName": opName}}); err != nil {
+		panic(err)
+	}
+	for {
+		var msg struct {
+			Type    string
+			Id      string
+			Payload struct {
+				Data   interface{}
+				Errors []interface{}
+			}
+		}
+		if err := conn.ReadJSON(&msg); err != nil {
+			panic(err)
+		}
+		switch msg.Type {
+		case "data":
+			data, nerrs = msg.Payload.Data, len(msg.Payload.Errors)
+		case "complete":
+			return data, nerrs
+		case "error", "connection_error":
+			panic("graphql-ws error message")
+		}
+	}
 }
 
 func buildAPI(dc graphql.FieldCost) *apiUnderTest {
-	cost, ran := new(int), new(bool)
+	a := &apiUnderTest{}
 	cfg := &apifu.Config{DefaultFieldCost: dc}
 	item := &graphql.ObjectType{Name: "Item", Fields: map[string]*graphql.FieldDefinition{}}
 	item.Fields["id"] = &graphql.FieldDefinition{Type: graphql.IntType, Resolve: func(ctx graphql.FieldContext) (interface{}, error) { return ctx.Object, nil }}
@@ -1301,15 +1358,18 @@ func buildAPI(dc graphql.FieldCost) *apiUnderTest {
 	cfg.AddQueryField("items", mkConn("QueryItems", connFields["Query"]["items"]))
 	cfg.AddQueryField("item", &graphql.FieldDefinition{Type: item, Resolve: func(ctx graphql.FieldContext) (interface{}, error) { return 1, nil }})
 	cfg.Execute = func(r *graphql.Request, info *apifu.RequestInfo) *graphql.Response {
-		*cost = info.Cost
-		*ran = true
+		a.mu.Lock()
+		a.cost, a.ran = info.Cost, true
+		a.mu.Unlock()
 		return graphql.Execute(r)
 	}
 	api, err := apifu.NewAPI(cfg)
 	if err != nil {
 		panic(err)
 	}
-	return &apiUnderTest{api: api, cost: cost, ran: ran}
+	a.api = api
+	a.srv = httptest.NewServer(http.HandlerFunc(api.ServeGraphQLWS))
+	return a
 }
 
 // abstract selections of the apifu schema reuse sel; scope is the type name
@@ -1519,19 +1579,31 @@ func apiCase(r *rng.R, apis []*apiUnderTest, dcs []graphql.FieldCost) sexp.Node 
 	which := r.Intn(len(apis))
 	a := apis[which]
 	q := d.text()
-	body, _ := json.Marshal(map[string]interface{}{"query": q, "variables": vars, "operationName": "Q"})
-	hr := httptest.NewRequest("POST", "/graphql", bytes.NewReader(body))
-	hr.Header.Set("Content-Type", "application/json")
-	w := httptest.NewRecorder()
-	*a.ran, *a.cost = false, unsetMark
+	route := "apifu"
+	if r.Chance(1, 6) {
+		route = "apifu-ws"
+	}
+	a.reset()
 	var observed sexp.Node
 	var conns []sexp.Node
 	func() {
 		defer func() {
 			if e := recover(); e != nil {
+				if debug {
+					fmt.Fprintln(os.Stderr, "DEBUG panic", e)
+				}
 				observed = sexp.Sym("panic")
 			}
 		}()
+		var data interface{}
+		var ne int
+		// HTTP first, also for the websocket route: a panic of the code under test on the websocket
+		// route happens in a goroutine of the library that nobody recovers and would take the harness
+		// process down; the same request over HTTP panics in this goroutine, where it is caught
+		body, _ := json.Marshal(map[string]interface{}{"query": q, "variables": vars, "operationName": "Q"})
+		hr := httptest.NewRequest("POST", "/graphql", bytes.NewReader(body))
+		hr.Header.Set("Content-Type", "application/json")
+		w := httptest.NewRecorder()
 		a.api.ServeGraphQL(w, hr)
 		var resp struct {
 			Data   interface{}
@@ -1540,16 +1612,20 @@ func apiCase(r *rng.R, apis []*apiUnderTest, dcs []graphql.FieldCost) sexp.Node 
 		if err := json.Unmarshal(w.Body.Bytes(), &resp); err != nil {
 			panic(err)
 		}
-		if *a.ran {
-			observed = sexp.L(sexp.Int(0), actualSexp(*a.cost), sexp.Int(0), actualSexp(*a.cost))
-			walkConns(d.ops[0].kids, resp.Data, &conns)
+		data, ne = resp.Data, len(resp.Errors)
+		if route == "apifu-ws" {
+			a.reset()
+			data, ne = a.overWS(q, vars, "Q")
+		}
+		if ran, cost := a.seen(); ran {
+			observed = sexp.L(sexp.Int(0), actualSexp(cost), sexp.Int(0), actualSexp(cost))
+			walkConns(d.ops[0].kids, data, &conns)
 		} else {
-			ne := len(resp.Errors)
 			observed = sexp.L(sexp.Int(ne), sexp.Sym("unset"), sexp.Int(ne), sexp.Sym("unset"))
 		}
 	}()
 	dc := dcs[which]
-	return sexp.T("case", sexp.T("route", sexp.Sym("apifu")),
+	return sexp.T("case", sexp.T("route", sexp.Sym(route)),
 		sexp.T("default", sexp.Int(dc.Resolver), sexp.Int(dc.Multiplier)),
 		sexp.T("table", tableSexp()), sexp.T("opname", sexp.Str("Q")), sexp.T("vars", varsSexp(vars)),
 		sexp.T("ops", d.opsSexp()), sexp.T("frags", d.fragsSexp()), sexp.T("max", sexp.Int(-1)),
@@ -1624,7 +1700,7 @@ func main() {
 		rec(nil, 0)
 
 		// 3. random valid documents: fragments at several depths, variables, contexts, several operations
-		n := 7000
+		n := 16000
 		if h.Thorough() {
 			n = 250000
 		}
@@ -1636,7 +1712,7 @@ func main() {
 		}
 
 		// 4. hostile: invalid documents, uncoercible variables, negative costs
-		n = 1500
+		n = 3000
 		if h.Thorough() {
 			n = 40000
 		}
@@ -1662,7 +1738,7 @@ func main() {
 				apis = append(apis, buildAPI(dc))
 			}
 		}
-		n = 1500
+		n = 3000
 		if h.Thorough() {
 			n = 30000
 		}
